@@ -354,6 +354,29 @@ def m_opt_as_mut(px, st, fr, ev):
     return [x, y]
 
 
+@model("std::char::methods::<impl char>::len_utf8", "core::char::methods::<impl char>::len_utf8",
+       reason="len_utf8 of a constant char: 1 below 0x80, 2 below 0x800, 3 below 0x10000, else 4")
+def m_len_utf8(px, st, fr, ev):
+    c = deref_val(px, st, ev["args"][0], depth=1)
+    if is_const(c) and isinstance(c[1], int):
+        return val(const(1 if c[1] < 0x80 else 2 if c[1] < 0x800 else 3 if c[1] < 0x10000 else 4))
+    return None
+
+
+@model("std::result::Result::<T, E>::as_ref", "std::result::Result::<T, E>::as_mut",
+       reason="as_ref/as_mut: Ok(&x) / Err(&e) following the referent's variant")
+def m_res_as_ref(px, st, fr, ev):
+    a = ev["args"][0]
+    if a[0] != "ref":
+        return None
+    cur = px._read(st, a[1], a[2])
+    mut = ev["callee"]["path"].endswith("as_mut")
+    x, y = split2(cur, "Ok", "Err")
+    x["value"] = ok(("ref", a[1], a[2] + (("as", "Ok"), ("f", "0")), mut))
+    y["value"] = err(("ref", a[1], a[2] + (("as", "Err"), ("f", "0")), mut))
+    return [x, y]
+
+
 def closure_body(t):
     if is_agg(t) and t[1] in ("closure", "coroutine"):
         return t[2]
@@ -408,7 +431,11 @@ def m_res_map(px, st, fr, ev):
     if body is not None and body in px.facts.bodies:
         a.update({"inline": body, "args": call_args(f, [payload(t, "Ok")]), "wrap": ok})
     else:
-        a["value"] = ok(("mapped", f, payload(t, "Ok")))
+        frag = _inl(px, f, [payload(t, "Ok")], ok, ev)      # a foreign fn item (`.map(Into::into)`): the call a direct call would be
+        if frag is not None:
+            a.update(frag)
+        else:
+            a["value"] = ok(("mapped", f, payload(t, "Ok")))
     b["value"] = err(payload(t, "Err"))
     return [a, b]
 
@@ -436,12 +463,15 @@ def _inl(px, f, args, wrap=None, ev=None):
     """outcome fragment applying callable f to args: its MIR body is expanded when it is crate-local; a foreign fn item
     becomes the same uninterpreted call term a direct call would produce (None when f is not a known callable)"""
     body = closure_body(f)
-    if body is not None and body in px.facts.bodies:
+    kept_unit = isinstance(f, tuple) and f and f[0] == "fn" and body in px.facts.bodies and ev is not None and \
+        not px.inline({"res_path": f[1], "path": f[1], "res_local": True}, 1)
+    if body is not None and body in px.facts.bodies and not kept_unit:
         d = {"inline": body, "args": call_args(f, args)}
         if wrap is not None:
             d["wrap"] = wrap
         return d
     if isinstance(f, tuple) and f and f[0] == "fn" and ev is not None:
+        # a foreign fn item - or a crate-local one the analysis keeps as a unit of its own (`.map(parse_qvalue)`)
         ctor = {"Ok": ok, "Err": err, "Some": some}.get(f[1].split("::")[-1]) if f[1] in CTOR_FNS else None
         r = ctor(args[0]) if ctor is not None and len(args) == 1 else ("call", f[1], tuple(args), ev["uid"])
         return {"value": wrap(r) if wrap is not None else r}
@@ -834,6 +864,60 @@ def m_try_for_each(px, st, fr, ev):
 TRY_FOLD = {"std::iter::Iterator::try_fold": m_try_fold, "std::iter::Iterator::try_for_each": m_try_for_each}
 
 
+def _any_all(px, st, fr, ev, neutral):
+    """`it.any(f)` / `it.all(f)` over a crate-local iterator, summarised by its *value*: that of
+    `fold(false, |a, x| a || f(x))` resp. `fold(true, |a, x| a && f(x))` (f pure).  How far the iterator is consumed differs
+    (any / all stop at the first hit) - the iterator is havocked either way.  NOT installed by default: the rules that read
+    `any` / `all` as opaque predicates (digit guards, the path validator) would lose them."""
+    if len(ev["args"]) != 2:
+        return None
+    it, f = ev["args"]
+    body = closure_body(f)
+    recv = ev["argops"][0].get("place", {}).get("ty", {})
+    rty = (recv.get("inner_s") or recv.get("s") or "").lstrip("&").replace("mut ", "").split("<")[0]
+    a = px.facts.adts.get(rty)
+    if body is None or body not in px.facts.bodies or not (a and a.get("local")):
+        return None
+    info = fr.info
+    header = ("fold", fr.bb)
+    sig = px.chain_sig(st)
+    key = ("F", 0, ())
+    acc = ("loopvar", info.name, header, key, 0) + ((sig,) if sig else ())
+    px.mark_bool(acc)
+    item = ("fold_item", info.name, fr.bb, sig)
+    init = const(neutral)
+
+    def do(s):
+        lev = s.extra.setdefault("loop_entry_values", {})
+        lev[(info.name, header, key)] = init
+        if sig:
+            lev[(info.name, header, key, sig)] = init
+        if isinstance(it, tuple) and it and it[0] == "ref" and it[3]:
+            px._write(s, it[1], it[2], ("havoc", ("call", ev["callee"]["path"], (("&", px._read(s, it[1], it[2])),), ev["uid"]), 0))
+        _havoc_captures(px, s, f, info.name, header, sig)
+        px.emit(s, {"k": "loop_enter", "fn": info.name, "bb": header, "sig": sig})
+    return [
+        {"label": "fold-exit", "value": acc, "do": do},
+        # a turn with the answer already decided: the accumulator keeps it, f is not consulted
+        {"label": "fold-step", "backedge": (info.name, header), "value": const(1 - neutral), "do": do,
+         "assume": (lambda c: c.set_known(acc, 1 - neutral))},
+        # a turn while undecided: the accumulator becomes f(item)
+        {"label": "fold-step", "inline": body, "args": call_args(f, [item]), "end_as": (info.name, header), "do": do,
+         "assume": (lambda c: c.set_known(acc, neutral))},
+    ]
+
+
+def m_any_local(px, st, fr, ev):
+    return _any_all(px, st, fr, ev, 0)
+
+
+def m_all_local(px, st, fr, ev):
+    return _any_all(px, st, fr, ev, 1)
+
+
+ANY_ALL = {"std::iter::Iterator::any": m_any_local, "std::iter::Iterator::all": m_all_local}
+
+
 @model("core::num::<impl u64>::checked_mul", "core::num::<impl usize>::checked_mul", "core::num::<impl u32>::checked_mul",
        reason="checked_mul: None iff the exact product exceeds MAX, else Some(a*b)")
 def m_checked_mul(px, st, fr, ev):
@@ -851,8 +935,39 @@ def m_checked_mul(px, st, fr, ev):
     ]
 
 
+@model("std::convert::Into::into", reason="x.into() with a crate-local `impl From<X> for T`: that impl's own MIR is expanded (std's blanket impl calls it)")
+def m_into(px, st, fr, ev):
+    dty = ev["dest"]["ty"]
+    adt = dty.get("adt") or (dty.get("s") or "").split("<")[0]
+    a = px.facts.adts.get(adt)
+    if not a or not a.get("local") or len(ev["args"]) != 1:
+        return None
+    aty = (ev["argops"][0].get("ty") or ev["argops"][0].get("place", {}).get("ty") or {}).get("s", "")
+    cands = []
+    for f in px.facts.fns.values():
+        if (f.get("impl_trait") or "").endswith("convert::From") and (f.get("impl_self") or "").split("<")[0] == adt and f["path"].endswith("::from") \
+                and f["path"] in px.facts.bodies:
+            pty = px.facts.bodies[f["path"]]["locals"][1]["s"]
+            if pty.split("<")[0] == aty.split("<")[0]:
+                cands.append(f["path"])
+    if len(cands) != 1:
+        return None
+    return [{"inline": cands[0], "args": [ev["args"][0]]}]
+
+
 def _m_widen(px, st, fr, ev):
     return val(ev["args"][0])
+
+
+def _m_tryfrom_lossless(px, st, fr, ev):
+    return val(ok(ev["args"][0]))
+
+
+for _s, _d in (("u64", "usize"), ("usize", "u64"), ("u32", "usize"), ("u32", "u64"), ("u16", "usize"), ("u8", "usize")):
+    model("std::convert::num::<impl std::convert::TryFrom<%s> for %s>::try_from" % (_s, _d),
+          "core::convert::num::<impl std::convert::TryFrom<%s> for %s>::try_from" % (_s, _d),
+          "std::convert::num::ptr_try_from_impls::<impl std::convert::TryFrom<%s> for %s>::try_from" % (_s, _d),
+          reason="TryFrom between unsigned types that cannot lose bits on the analysed (64-bit) target: always Ok(value)")(_m_tryfrom_lossless)
 
 
 for _src, _dsts in (("u8", ("u16", "u32", "u64", "usize", "u128")), ("u16", ("u32", "u64", "usize", "u128")), ("u32", ("u64", "u128")),
@@ -1040,6 +1155,9 @@ def m_len(px, st, fr, ev):
        reason="is_empty(x) == (len(x) == 0)")
 def m_is_empty(px, st, fr, ev):
     s = seq_of(px, st, ev["args"][0])
+    if isinstance(s, tuple) and s and s[0] == "havoc" and isinstance(s[1], tuple) and s[1] and s[1][0] == "call" and \
+            s[1][1].split("::")[-1] in ("pop_front", "pop_back", "pop") and st.cons.variant_of(s[1]) == "None":
+        return val(const(1))        # a pop that returned None leaves the (empty) collection as it was
     ln = len_term(s)
     return val(st.cons.lookup(zero_length_cond(ln)))
 
